@@ -191,6 +191,10 @@ def programs(tier, seed):
     ps += a
     a, i = block_once_programs(tier, seed, i)
     ps += a
+    if tier == "thorough":
+        # measured (thorough run of this tier): with move-only payloads these do not finish within 1200 s / 12 GB -
+        # zip after a wrapper, Vec collection after a filtering wrapper, partition under the thread model
+        ps = [p for p in ps if not ((p.group == "wrapper" and (p.weight > 12 or ">^>" in p.text)) or (p.group != "wrapper" and p.weight > 60))]
     return ps
 
 
